@@ -99,7 +99,7 @@ func (g *gen) value(sb *strings.Builder, depth int) {
 	switch {
 	case k < 3: // object
 		n := g.d(g.o.MaxWidth + 1)
-		if g.o.BigObject && g.d(6) == 0 {
+		if g.o.BigObject && depth <= 1 && g.d(6) == 0 {
 			n = 17 + g.d(8)
 		}
 		sb.WriteByte('{')
